@@ -7,6 +7,8 @@
 //!   txt <T> <hex text>    parse_recognize::<T> (A) vs parse_recognize::<Value> + try_from_value (B)
 //!   mp  <T> <inst>        MsgPackInterpreter                          -> hex bytes | err:<kind>
 //!   mr  <T> <hex bytes>   read_from_msg_pack::<T>                     -> ok <inst> | err
+//!   vrt <T> <inst>        types with generic `Value` fields: every path above on the instance, each compared with it
+//!                                                                   -> ok | mismatch:<paths> c=<f6|->
 //!   sch <T> <descriptor>  hand-written schema descriptor of the type (checked by the Lean model) -> ok
 //! Every op line is self-contained (type name + canonical text), so any trace can be replayed.
 use std::collections::HashMap;
@@ -256,6 +258,17 @@ trait Fv: Sized + Clone + PartialEq + Debug {
     fn modelled() -> bool {
         true
     }
+    /// The type has fields of the generic model type `Value` (battery X03, X13..): its cases use the `vrt` op, which runs
+    /// every conversion path on the instance and compares each result with the instance itself.
+    fn vfields() -> bool {
+        false
+    }
+    /// The instance with every `#[form(body)]` field of type `Value` replaced by what `DelegateBodyMaterializer` is
+    /// documented (C16-F6) to give back for it: `{}` -> Extant, `{x}` -> `x`. Only used to LABEL a `vrt` mismatch as
+    /// fully explained by C16-F6 (`c=f6`); the verdict itself is `ok` only if every path returns the instance.
+    fn f6_norm(&self) -> Self {
+        self.clone()
+    }
 }
 
 fn gen_i64_in(r: &mut Rng, lo: i128, hi: i128) -> i128 {
@@ -389,6 +402,12 @@ impl<T: Fv> Fv for Option<T> {
     fn modelled() -> bool {
         T::modelled()
     }
+    fn vfields() -> bool {
+        T::vfields()
+    }
+    fn f6_norm(&self) -> Self {
+        self.as_ref().map(|t| t.f6_norm())
+    }
 }
 
 impl<T: Fv> Fv for Vec<T> {
@@ -439,6 +458,12 @@ impl<T: Fv> Fv for Vec<T> {
     }
     fn modelled() -> bool {
         T::modelled()
+    }
+    fn vfields() -> bool {
+        T::vfields()
+    }
+    fn f6_norm(&self) -> Self {
+        self.iter().map(|t| t.f6_norm()).collect()
     }
 }
 
@@ -643,6 +668,12 @@ impl<K: Fv + Eq + Hash, T: Fv> Fv for HashMap<K, T> {
     }
     fn modelled() -> bool {
         false
+    }
+    fn vfields() -> bool {
+        T::vfields()
+    }
+    fn f6_norm(&self) -> Self {
+        self.iter().map(|(k, t)| (k.clone(), t.f6_norm())).collect()
     }
 }
 
@@ -1565,6 +1596,12 @@ impl<T: Fv + Form> Fv for CW<T> {
     fn modelled() -> bool {
         T::modelled()
     }
+    fn vfields() -> bool {
+        T::vfields()
+    }
+    fn f6_norm(&self) -> Self {
+        CW { v: self.v.f6_norm(), o: self.o.f6_norm(), n: self.n }
+    }
 }
 
 // ---- every hand-written Form impl of swimos_form for std / library types (tools/extractors/c16.py checks that each
@@ -1988,6 +2025,393 @@ struct X12 {
 }
 bat_struct_nodefault!(X12 { a: i32, b: HashMap<E01, (i32, String)> });
 
+
+// ------------------------------------------------------------------------------------------ generic `Value` fields
+// Derived types with a field of the generic model type `Value` in every position the derive supports (battery X02, X03,
+// X13..X21). Their cases use the `vrt` op. The generator concentrates on the boundary shapes of the recognisers for
+// `Value` fields (`DelegateBodyMaterializer`, `AttrBodyMaterializer`, `ValueMaterializer`): Extant, primitives, `{}`,
+// attributes with 0 / exactly 1 value item / exactly 1 slot / 2 items, no attributes with 0 / 1 / 2 items, a single
+// item that is itself a record, nesting to depth 3. Integers are generated in the kind the materialiser gives back.
+
+fn gen_bprim(r: &mut Rng) -> Value {
+    match r.below(10) {
+        0 => Value::Extant,
+        1 | 2 | 3 => Value::Int32Value(*r.pick(&[0, 1, 5, -1, 3, i32::MAX, i32::MIN])),
+        4 => Value::Int64Value(*r.pick(&[1i64 << 40, i64::MIN, -(1i64 << 33)])),
+        5 => Value::UInt64Value(*r.pick(&[u64::MAX, 1u64 << 63])),
+        6 => Value::BooleanValue(r.chance(1, 2)),
+        _ => Value::text(*r.pick(&["a", "", "x y", "update", "k", "true", "5"])),
+    }
+}
+
+fn gen_battrs(r: &mut Rng, n: u64, depth: u32) -> Vec<Attr> {
+    (0..n)
+        .map(|_| {
+            let value = if depth == 0 || r.chance(2, 3) {
+                if r.chance(2, 3) { Value::Extant } else { gen_bprim(r) }
+            } else {
+                gen_bvalue(r, depth - 1)
+            };
+            Attr { name: Text::new(*r.pick(&["a", "b", "update", "k v", "remove"])), value }
+        })
+        .collect()
+}
+
+fn gen_bitem_value(r: &mut Rng, depth: u32) -> Value {
+    if depth == 0 || r.chance(1, 2) { gen_bprim(r) } else { gen_bvalue(r, depth - 1) }
+}
+
+fn gen_bslot(r: &mut Rng, depth: u32) -> Item {
+    let key = if r.chance(4, 5) { Value::text(*r.pick(&["k", "key", "value", "a"])) } else { gen_bitem_value(r, depth.min(1)) };
+    Item::Slot(key, gen_bitem_value(r, depth))
+}
+
+fn gen_bitem(r: &mut Rng, depth: u32) -> Item {
+    if r.chance(1, 2) { Item::ValueItem(gen_bitem_value(r, depth)) } else { gen_bslot(r, depth) }
+}
+
+/// `depth` = how many more levels of records may be nested below this one.
+fn gen_bvalue(r: &mut Rng, depth: u32) -> Value {
+    let na = r.range(1, 2);
+    match r.below(18) {
+        0 => Value::Extant,
+        1 | 2 => gen_bprim(r),
+        3 => Value::Record(vec![], vec![]),
+        // attributes and no items: `@a`
+        4 => Value::Record(gen_battrs(r, na, depth), vec![]),
+        // attributes and exactly one value item: `@update 5`, `@a @b 3`
+        5 | 6 | 7 => Value::Record(gen_battrs(r, na, depth), vec![Item::ValueItem(gen_bitem_value(r, depth))]),
+        // attributes and exactly one slot: `@a {k:1}`
+        8 => Value::Record(gen_battrs(r, na, depth), vec![gen_bslot(r, depth)]),
+        // attributes and two items
+        9 => Value::Record(gen_battrs(r, na, depth), vec![gen_bitem(r, depth), gen_bitem(r, depth)]),
+        // no attributes, one value item / one slot / two items
+        10 => Value::Record(vec![], vec![Item::ValueItem(gen_bitem_value(r, depth))]),
+        11 => Value::Record(vec![], vec![gen_bslot(r, depth)]),
+        12 => Value::Record(vec![], vec![gen_bitem(r, depth), gen_bitem(r, depth)]),
+        // a single item that is itself a record (with and without attributes around it)
+        13 | 14 => {
+            let inner = match r.below(4) {
+                0 => Value::Record(vec![], vec![]),
+                1 => Value::Record(vec![], vec![Item::ValueItem(gen_bprim(r))]),
+                2 => Value::Record(gen_battrs(r, 1, 0), vec![Item::ValueItem(gen_bprim(r))]),
+                _ if depth > 0 => gen_bvalue(r, depth - 1),
+                _ => Value::Record(vec![], vec![gen_bslot(r, 0)]),
+            };
+            let attrs = if r.chance(1, 2) { gen_battrs(r, 1, 0) } else { vec![] };
+            Value::Record(attrs, vec![Item::ValueItem(inner)])
+        }
+        _ => {
+            let (a, n) = (r.below(3), r.below(4));
+            let attrs = gen_battrs(r, a, depth);
+            Value::Record(attrs, (0..n).map(|_| gen_bitem(r, depth)).collect())
+        }
+    }
+}
+
+fn gen_bv(r: &mut Rng) -> Value {
+    gen_bvalue(r, 2)
+}
+/// `Some(Extant)` is excluded: an `Option` of a type that reads `Extant` cannot tell it from `None`
+/// (C16_option_of_unit_fails, inherent).
+fn gen_bopt(r: &mut Rng) -> Option<Value> {
+    if r.chance(1, 4) {
+        return None;
+    }
+    loop {
+        let v = gen_bv(r);
+        if v != Value::Extant {
+            return Some(v);
+        }
+    }
+}
+fn gen_bvec(r: &mut Rng) -> Vec<Value> {
+    let n = r.below(4);
+    (0..n).map(|_| gen_bv(r)).collect()
+}
+fn gen_bstr(r: &mut Rng) -> String {
+    String::gen(r, 1)
+}
+fn gen_bi32(r: &mut Rng) -> i32 {
+    i32::gen(r, 1)
+}
+
+/// What C16-F6 documents for a `#[form(body)]` field of type `Value` (one step, as the code does).
+fn f6v(v: &Value) -> Value {
+    match v {
+        Value::Record(attrs, items) if attrs.is_empty() && items.len() <= 1 => match items.first() {
+            None => Value::Extant,
+            Some(Item::ValueItem(x)) => x.clone(),
+            Some(_) => v.clone(),
+        },
+        _ => v.clone(),
+    }
+}
+
+/// `Fv` for a struct with `Value` fields: per field its generator; `f6` lists the `#[form(body)]` fields of type `Value`.
+macro_rules! bat_vstruct {
+    ($name:ident { $($f:ident : $ft:ty = $g:expr),* } f6 { $($b:ident),* }) => {
+        impl Fv for $name {
+            fn ty() -> String { "x:vstruct".into() }
+            fn gen(r: &mut Rng, _d: u32) -> Self { $name { $($f: ($g)(r)),* } }
+            #[allow(unused_assignments)]
+            fn inst(&self, o: &mut String) {
+                o.push('(');
+                let mut first = true;
+                $( if !first { o.push(','); } first = false; self.$f.inst(o); )*
+                o.push(')');
+            }
+            #[allow(unused_assignments)]
+            fn parse(p: &mut P) -> Option<Self> {
+                p.eat(b'(')?;
+                let mut first = true;
+                $( if !first { p.eat(b',')?; } first = false; let $f = <$ft as Fv>::parse(p)?; )*
+                p.eat(b')')?;
+                Some($name { $($f),* })
+            }
+            fn modelled() -> bool { false }
+            fn vfields() -> bool { true }
+            #[allow(unused_mut)]
+            fn f6_norm(&self) -> Self {
+                let mut v = self.clone();
+                $( v.$b = f6v(&v.$b); )*
+                v
+            }
+        }
+    };
+}
+macro_rules! bat_vtuple {
+    ($name:ident ( $($i:tt $v:ident : $ft:ty = $g:expr),* )) => {
+        impl Fv for $name {
+            fn ty() -> String { "x:vtuple".into() }
+            fn gen(r: &mut Rng, _d: u32) -> Self { $name ( $(($g)(r)),* ) }
+            #[allow(unused_assignments)]
+            fn inst(&self, o: &mut String) {
+                o.push('(');
+                let mut first = true;
+                $( if !first { o.push(','); } first = false; self.$i.inst(o); )*
+                o.push(')');
+            }
+            #[allow(unused_assignments)]
+            fn parse(p: &mut P) -> Option<Self> {
+                p.eat(b'(')?;
+                let mut first = true;
+                $( if !first { p.eat(b',')?; } first = false; let $v = <$ft as Fv>::parse(p)?; )*
+                p.eat(b')')?;
+                Some($name ( $($v),* ))
+            }
+            fn modelled() -> bool { false }
+            fn vfields() -> bool { true }
+        }
+    };
+}
+
+// the shape of the map / value lane messages: tag, header slot, delegated generic body
+#[derive(Form, Clone, PartialEq, Debug)]
+#[form(tag = "envelope")]
+struct X13 {
+    #[form(header)]
+    node: String,
+    #[form(body)]
+    payload: Value,
+}
+bat_vstruct!(X13 { node: String = gen_bstr, payload: Value = gen_bv } f6 { payload });
+
+// header slot (next to a non-generic header body), attribute, plain slot
+#[derive(Form, Clone, PartialEq, Debug)]
+struct X14 {
+    #[form(header_body)]
+    hb: i32,
+    #[form(header)]
+    h: Value,
+    #[form(attr)]
+    at: Value,
+    s: Value,
+}
+bat_vstruct!(X14 { hb: i32 = gen_bi32, h: Value = gen_bv, at: Value = gen_bv, s: Value = gen_bv } f6 {});
+
+// generic header body FOLLOWED BY a header slot (C16-F22: not readable from a Value / from MessagePack)
+#[derive(Form, Clone, PartialEq, Debug)]
+struct X22 {
+    #[form(header_body)]
+    hb: Value,
+    #[form(header)]
+    h: i32,
+}
+bat_vstruct!(X22 { hb: Value = gen_bv, h: i32 = gen_bi32 } f6 {});
+
+#[derive(Form, Clone, PartialEq, Debug)]
+#[form(tag = "opt")]
+struct X15 {
+    o: Option<Value>,
+    #[form(name = "list")]
+    v: Vec<Value>,
+    #[form(header)]
+    n: i32,
+}
+bat_vstruct!(X15 { o: Option<Value> = gen_bopt, v: Vec<Value> = gen_bvec, n: i32 = gen_bi32 } f6 {});
+
+#[derive(Form, Clone, PartialEq, Debug)]
+struct X16(Value, Value);
+bat_vtuple!(X16 (0 v0: Value = gen_bv, 1 v1: Value = gen_bv));
+
+#[derive(Form, Clone, PartialEq, Debug)]
+#[form(newtype)]
+struct X17(Value);
+bat_vtuple!(X17 (0 v0: Value = gen_bv));
+
+// delegated generic body next to an attribute and a header body, renamed tag
+#[derive(Form, Clone, PartialEq, Debug)]
+#[form(tag = "upd")]
+struct X18 {
+    #[form(attr)]
+    q: i32,
+    #[form(header_body)]
+    key: i32,
+    #[form(body)]
+    b: Value,
+}
+bat_vstruct!(X18 { q: i32 = gen_bi32, key: i32 = gen_bi32, b: Value = gen_bv } f6 { b });
+
+// generic header body, attribute, slot and optional slot with a renamed tag and renamed fields
+#[derive(Form, Clone, PartialEq, Debug)]
+#[form(tag = "vals")]
+struct X19 {
+    #[form(header_body, name = "HB")]
+    hb: Value,
+    #[form(attr, name = "meta")]
+    at: Value,
+    #[form(name = "slot")]
+    s: Value,
+    #[form(name = "o")]
+    o: Option<Value>,
+}
+bat_vstruct!(X19 { hb: Value = gen_bv, at: Value = gen_bv, s: Value = gen_bv, o: Option<Value> = gen_bopt } f6 {});
+
+// tuple struct with a generic header and a generic delegated body
+#[derive(Form, Clone, PartialEq, Debug)]
+#[form(tag = "tb")]
+struct X20(#[form(header, name = "h")] Value, #[form(body)] Value);
+impl Fv for X20 {
+    fn ty() -> String {
+        "x:vtuple".into()
+    }
+    fn gen(r: &mut Rng, _d: u32) -> Self {
+        X20(gen_bv(r), gen_bv(r))
+    }
+    fn inst(&self, o: &mut String) {
+        o.push('(');
+        self.0.inst(o);
+        o.push(',');
+        self.1.inst(o);
+        o.push(')');
+    }
+    fn parse(p: &mut P) -> Option<Self> {
+        p.eat(b'(')?;
+        let a = <Value as Fv>::parse(p)?;
+        p.eat(b',')?;
+        let b = <Value as Fv>::parse(p)?;
+        p.eat(b')')?;
+        Some(X20(a, b))
+    }
+    fn modelled() -> bool {
+        false
+    }
+    fn vfields() -> bool {
+        true
+    }
+    fn f6_norm(&self) -> Self {
+        X20(self.0.clone(), f6v(&self.1))
+    }
+}
+
+// enum in the shape of the map operations: generic key in the header, generic delegated body
+#[derive(Form, Clone, PartialEq, Debug)]
+enum X21 {
+    #[form(tag = "put")]
+    Put {
+        #[form(header)]
+        key: Value,
+        #[form(body)]
+        value: Value,
+    },
+    #[form(tag = "del")]
+    Del {
+        #[form(header_body)]
+        key: Value,
+    },
+    #[form(tag = "set")]
+    Set(Value),
+    #[form(tag = "clr")]
+    Clr,
+}
+impl Fv for X21 {
+    fn ty() -> String {
+        "x:venum".into()
+    }
+    fn gen(r: &mut Rng, _d: u32) -> Self {
+        match r.below(7) {
+            0 | 1 | 2 => X21::Put { key: gen_bv(r), value: gen_bv(r) },
+            3 | 4 => X21::Del { key: gen_bv(r) },
+            5 => X21::Set(gen_bv(r)),
+            _ => X21::Clr,
+        }
+    }
+    fn inst(&self, o: &mut String) {
+        match self {
+            X21::Put { key, value } => {
+                o.push_str("e0(");
+                key.inst(o);
+                o.push(',');
+                value.inst(o);
+                o.push(')');
+            }
+            X21::Del { key } => {
+                o.push_str("e1(");
+                key.inst(o);
+                o.push(')');
+            }
+            X21::Set(v) => {
+                o.push_str("e2(");
+                v.inst(o);
+                o.push(')');
+            }
+            X21::Clr => o.push_str("e3()"),
+        }
+    }
+    fn parse(p: &mut P) -> Option<Self> {
+        p.eat(b'e')?;
+        let k = p.next()?;
+        p.eat(b'(')?;
+        let out = match k {
+            b'0' => {
+                let key = <Value as Fv>::parse(p)?;
+                p.eat(b',')?;
+                let value = <Value as Fv>::parse(p)?;
+                X21::Put { key, value }
+            }
+            b'1' => X21::Del { key: <Value as Fv>::parse(p)? },
+            b'2' => X21::Set(<Value as Fv>::parse(p)?),
+            b'3' => X21::Clr,
+            _ => return None,
+        };
+        p.eat(b')')?;
+        Some(out)
+    }
+    fn modelled() -> bool {
+        false
+    }
+    fn vfields() -> bool {
+        true
+    }
+    fn f6_norm(&self) -> Self {
+        match self {
+            X21::Put { key, value } => X21::Put { key: key.clone(), value: f6v(value) },
+            ow => ow.clone(),
+        }
+    }
+}
+
 // ---- outside the model's universe
 #[derive(Form, Clone, PartialEq, Debug, Default)]
 struct X01 {
@@ -2013,8 +2437,7 @@ impl PartialEq for X02 {
         value_eq(&self.a, &o.a) && value_eq(&self.h, &o.h) && value_eq(&self.s, &o.s)
     }
 }
-bat_struct!(X02 { a: Value, h: Value, s: Value } skip {} desc
-    sd('S', "X02", &[fd('a', "a", Value::ty()), fd('H', "h", Value::ty()), fd('s', "s", Value::ty())]));
+bat_vstruct!(X02 { a: Value = gen_bv, h: Value = gen_bv, s: Value = gen_bv } f6 {});
 
 #[derive(Form, Clone, Debug, Default)]
 struct X03 {
@@ -2026,7 +2449,7 @@ impl PartialEq for X03 {
         value_eq(&self.b, &o.b)
     }
 }
-bat_struct!(X03 { b: Value } skip {} desc sd('S', "X03", &[fd('b', "b", Value::ty())]));
+bat_vstruct!(X03 { b: Value = gen_bv } f6 { b });
 
 #[derive(Form, Clone, PartialEq, Debug, Default)]
 struct X04 {
@@ -2136,6 +2559,39 @@ trait Ops {
     fn mp(&self, inst: &str) -> String;
     fn mr(&self, hex_bytes: &str) -> String;
     fn seq(&self, hex_texts: &str) -> String;
+    fn vfields(&self) -> bool;
+    fn vrt(&self, inst: &str) -> String;
+}
+
+/// The texts as successive frames of ONE `WithLenRecognizerDecoder` (one recogniser instance, reset between frames).
+fn decode_frames<T: Form>(texts: &[String]) -> Vec<Option<T>> {
+    use tokio_util::codec::Decoder;
+    let mut buf = BytesMut::new();
+    for t in texts {
+        buf.put_u64(t.len() as u64);
+        buf.put_slice(t.as_bytes());
+    }
+    let mut dec = swimos_recon::WithLenRecognizerDecoder::new(T::make_recognizer());
+    let mut out: Vec<Option<T>> = vec![];
+    let mut guard_n = 0;
+    while out.len() < texts.len() && guard_n < 4 * texts.len() + 4 {
+        guard_n += 1;
+        let before = buf.len();
+        match dec.decode(&mut buf) {
+            Ok(Some(v)) => out.push(Some(v)),
+            Err(_) => out.push(None),
+            Ok(None) => {
+                if buf.len() == before {
+                    out.push(dec.decode_eof(&mut buf).ok().flatten());
+                    break;
+                }
+            }
+        }
+    }
+    while out.len() < texts.len() {
+        out.push(None);
+    }
+    out
 }
 
 struct Bat<T>(&'static str, PhantomData<T>);
@@ -2313,6 +2769,76 @@ impl<T: Fv + Form + 'static> Ops for Bat<T> {
         });
         format!("R={} F={}", reused, fresh.join("|"))
     }
+    fn vfields(&self) -> bool {
+        T::vfields()
+    }
+    /// Every conversion path on one instance, each result compared with the instance: `ok` or
+    /// `mismatch:<paths> c=<f6|->` (`c=f6`: every wrong result is exactly what C16-F6 documents, see `Fv::f6_norm`).
+    fn vrt(&self, inst: &str) -> String {
+        let t = match parse_inst::<T>(inst) {
+            None => return "bad-op".into(),
+            Some(t) => t,
+        };
+        guard(|| {
+            let n = t.f6_norm();
+            let mut bad: Vec<String> = vec![];
+            let mut unexplained = false;
+            let mut chk = |name: &str, r: Option<T>| {
+                if r.as_ref() != Some(&t) {
+                    bad.push(name.to_string());
+                    if r.as_ref() != Some(&n) {
+                        unexplained = true;
+                    }
+                }
+            };
+            // model
+            let v = t.as_value();
+            chk("model", T::try_from_value(&v).ok());
+            let v2 = t.clone().into_value();
+            if !value_eq(&v, &v2) {
+                chk("into_value!=as_value", None);
+            }
+            chk("convert", T::try_convert(v2).ok());
+            // Recon, three printers, two reading paths
+            let texts = [format!("{}", print_recon(&t)), format!("{}", print_recon_compact(&t)), format!("{}", print_recon_pretty(&t))];
+            // (relative to C09: only for texts that the generic parser reads back as the value that was printed; what the
+            // printer / parser do to generic values is C09's business, e.g. `{{5}}` printed as `{5}` after an attribute)
+            let mut recon_ok = vec![];
+            for (i, s) in texts.iter().enumerate() {
+                if parse_recognize::<Value>(s.as_str(), false).ok().as_ref() != Some(&v) {
+                    continue;
+                }
+                recon_ok.push(s.clone());
+                chk(&format!("recon{}", i), parse_recognize::<T>(s.as_str(), false).ok());
+                chk(
+                    &format!("recon{}v", i),
+                    parse_recognize::<Value>(s.as_str(), false).ok().and_then(|v| T::try_from_value(&v).ok()),
+                );
+            }
+            // one recogniser instance, reset between two frames
+            if let Some(s) = recon_ok.first() {
+                let frames = decode_frames::<T>(&[s.clone(), s.clone()]);
+                for (i, f) in frames.into_iter().enumerate() {
+                    chk(&format!("reused{}", i), f);
+                }
+            }
+            // MessagePack, typed reader and generic reader + try_from_value
+            match msgpack_bytes(&t) {
+                Ok(b) => {
+                    let mut buf = bytes::Bytes::from(b.clone());
+                    chk("msgpack", read_from_msg_pack::<T, _>(&mut buf).ok());
+                    let mut buf = bytes::Bytes::from(b);
+                    chk("msgpackv", read_from_msg_pack::<Value, _>(&mut buf).ok().and_then(|v| T::try_from_value(&v).ok()));
+                }
+                Err(_) => chk("msgpack-write", None),
+            }
+            if bad.is_empty() {
+                "ok".into()
+            } else {
+                format!("mismatch:{} c={}", bad.join(","), if unexplained { "-" } else { "f6" })
+            }
+        })
+    }
 }
 
 macro_rules! reg {
@@ -2352,10 +2878,13 @@ fn registry() -> Vec<Box<dyn Ops>> {
         "Ptup1" => (Duration,), "Ptup12" => Tup12,
         "Kmap2" => HashMap<(i32, i32), String>, "KmapS" => HashMap<S01, Duration>, "KmapV" => HashMap<Vec<i32>, i32>,
         "KmapE" => HashMap<E01, Vec<i32>>, "KmapO" => HashMap<Option<i32>, bool>,
+        // generic `Value` fields in every position (with X02, X03)
+        "X13" => X13, "X14" => X14, "X15" => X15, "X16" => X16, "X17" => X17, "X18" => X18, "X19" => X19, "X20" => X20,
+        "X21" => X21, "X22" => X22,
     ];
     // `Option<Option<_>>` is the `Option` of a type that reads `Extant` (C16_option_of_unit_fails): not registered
     // (same for `Option<()>` and `Option<Value>`)
-    all.into_iter().filter(|e| !["O:Popt", "O:Lunit", "O:Lvalue"].contains(&e.name())).collect()
+    all.into_iter().filter(|e| !["O:Popt", "O:Lunit", "O:Lvalue", "O:X17"].contains(&e.name())).collect()
 }
 
 // ------------------------------------------------------------------------------------------ mutations
@@ -2733,6 +3262,7 @@ fn exec(reg: &[Box<dyn Ops>], op: &str) -> String {
         ("mp", 3) => t.mp(parts[2]),
         ("mr", 3) => t.mr(parts[2]),
         ("seq", 3) => t.seq(parts[2]),
+        ("vrt", 3) => t.vrt(parts[2]),
         _ => "bad-op".into(),
     }
 }
@@ -2772,8 +3302,15 @@ fn gen_paths_case(reg: &[Box<dyn Ops>], r: &mut Rng, t: &mut Trace, e: &dyn Ops,
     t.case(id);
     let mut ops = vec![format!("av {} {}", name, inst)];
     let v = e.av(&inst);
-    ops.push(format!("fv {} {}", name, v));
-    ops.push(format!("rt {} {}", name, inst));
+    // types with generic `Value` fields: every path against the instance in one op (`vrt`), which can tell the
+    // documented C16-F6 outcome from any other wrong result
+    let vf = e.vfields();
+    if vf {
+        ops.push(format!("vrt {} {}", name, inst));
+    } else {
+        ops.push(format!("fv {} {}", name, v));
+        ops.push(format!("rt {} {}", name, inst));
+    }
     let mut texts: Vec<String> = vec![];
     for style in ["0", "1", "2"] {
         ops.push(format!("pr {} {} {}", name, style, inst));
@@ -2822,7 +3359,9 @@ fn gen_paths_case(reg: &[Box<dyn Ops>], r: &mut Rng, t: &mut Trace, e: &dyn Ops,
     ops.push(format!("mp {} {}", name, inst));
     let mh = e.mp(&inst);
     if let Some(b) = unhex(&mh) {
-        ops.push(format!("mr {} {}", name, mh));
+        if !vf {
+            ops.push(format!("mr {} {}", name, mh));
+        }
         for _ in 0..r.range(1, 3) {
             let m = mutate_bytes(r, &b);
             ops.push(format!("mr {} {}", name, hex(&m)));
